@@ -195,7 +195,7 @@ theorem callLoop_value_error (fuel : Nat) {res : Table} {n : Nat} (hr : res.Rect
         have hnil : fns.filter (fun kf => kf.2.args.all fun a => !(fns.map (·.1)).contains a) = [] := by
           simpa using hind
         have := List.filter_eq_nil_iff.1 hnil kf hkf
-        simp only [List.all_eq_true, Bool.not_eq_true', Bool.not_eq_true] at this
+        simp only [List.all_eq_true, Bool.not_eq_true'] at this
         have hex : ∃ a ∈ kf.2.args, (fns.map (·.1)).contains a = true := by
           apply Classical.byContradiction
           intro hne
